@@ -53,6 +53,12 @@ func (w *World) resolveType(pkgPath, name string) types.Type {
 		name = name[1:]
 	}
 	var t types.Type
+	if strings.HasPrefix(name, "[]") {
+		if et := w.resolveType(pkgPath, name[2:]); et != nil && !ptr {
+			return types.NewSlice(et)
+		}
+		return nil
+	}
 	switch name {
 	case "int":
 		t = types.Typ[types.Int]
@@ -345,6 +351,7 @@ func (w *World) VerifyLemma(l *LemmaSpec) *FuncReport {
 	x := w.newExec(nil, spec, beh)
 	if l.Theory == "none" {
 		x.bv = true
+		x.arr = true
 	}
 	defer func() {
 		for k := range x.assumed {
@@ -398,6 +405,86 @@ func (w *World) VerifyLemma(l *LemmaSpec) *FuncReport {
 	}
 	rep.Vacuity = append(rep.Vacuity, &Obligation{Name: shortKey(rep.Key) + ".vacuity[requires]", Kind: "vacuity",
 		Facts: append(append([]*Term(nil), x.gfacts...), st.Facts...), Goal: TFalse, Theory: x.theory, Func: rep.Key, Behavior: "lemma"})
+	// applications of other lemmas (each proved on its own in the same run): its requires ==> its ensures, at the arguments
+	for _, u := range l.Uses {
+		var tgt *LemmaSpec
+		for _, o := range w.Lemmas {
+			if o.Name == u.Args[0].Name && o.Pkg == l.Pkg && o != l {
+				tgt = o
+			}
+		}
+		if tgt == nil || len(u.Args)-1 != len(tgt.Params) {
+			rep.Errors = append(rep.Errors, "lemma "+l.Name+": use of unknown lemma or wrong arity: "+u.String())
+			return rep
+		}
+		env2 := env.clone()
+		for i, p := range tgt.Params {
+			env2.vars[p.Name] = env.eval(u.Args[i+1])
+		}
+		var pre, post []*Term
+		for _, c := range tgt.Requires {
+			t, err := env2.evalBool(c.E)
+			if err != nil {
+				rep.Errors = append(rep.Errors, err.Error())
+				return rep
+			}
+			pre = append(pre, t)
+		}
+		for _, c := range tgt.Ensures {
+			t, err := env2.evalBool(c.E)
+			if err != nil {
+				rep.Errors = append(rep.Errors, err.Error())
+				return rep
+			}
+			post = append(post, t)
+		}
+		st.Assume(Implies(And(pre...), And(post...)))
+	}
+	// induction hypotheses: the lemma at the given arguments, wherever the measure is a smaller natural number
+	if len(l.Induct) > 0 {
+		if l.Decreases == nil {
+			rep.Errors = append(rep.Errors, "lemma "+l.Name+": induct without decreases")
+			return rep
+		}
+		m0, err := env.evalInt(l.Decreases)
+		if err != nil {
+			rep.Errors = append(rep.Errors, err.Error())
+			return rep
+		}
+		for _, tuple := range l.Induct {
+			if len(tuple) != len(l.Params) {
+				rep.Errors = append(rep.Errors, "lemma "+l.Name+": induct needs one argument per parameter")
+				return rep
+			}
+			env2 := env.clone()
+			for i, p := range l.Params {
+				env2.vars[p.Name] = env.eval(tuple[i])
+			}
+			m1, err := env2.evalInt(l.Decreases)
+			if err != nil {
+				rep.Errors = append(rep.Errors, err.Error())
+				return rep
+			}
+			var pre, post []*Term
+			for _, c := range l.Requires {
+				t, err := env2.evalBool(c.E)
+				if err != nil {
+					rep.Errors = append(rep.Errors, err.Error())
+					return rep
+				}
+				pre = append(pre, t)
+			}
+			for _, c := range l.Ensures {
+				t, err := env2.evalBool(c.E)
+				if err != nil {
+					rep.Errors = append(rep.Errors, err.Error())
+					return rep
+				}
+				post = append(post, t)
+			}
+			st.Assume(Implies(And(append([]*Term{Le(IntLit(0), m1), Lt(m1, m0)}, pre...)...), And(post...)))
+		}
+	}
 	for i, c := range l.Ensures {
 		t, err := env.evalBool(c.E)
 		if err != nil {
